@@ -17,36 +17,50 @@ def {NAME}({ARGS}) -> bool:
     pre: {PRE}
     post: _
     """
-    # reachability twin: must be REFUTED (some plan makes every planned fault fire and be retried, then succeeds)
-    return H.outcome_of({ENTRY!r}, {NSTMT}, {RO}, [{FAULTS}]) != ({NF} + 1, 'returned')
+    # reachability twin: must be REFUTED (some plan in this shard reaches the end of the scenario {WHAT})
+    return H.outcome_of({ENTRY!r}, {NSTMT}, {RO}, [{FAULTS}]) != {EXPECT}
 '''
 
 
-def name(entry, nstmt, ro, nf, op0lo, op0hi, twin=False):
-    return f'{"t" if twin else "c"}_{entry}_{nstmt}_{"ro" if ro else "rw"}_f{nf}_op{op0lo}_{op0hi}'
+def name(entry, nstmt, ro, nf, fixed, twin=False):
+    return f'{"t" if twin else "c"}_{entry}_{nstmt}_{"ro" if ro else "rw"}_f{nf}_op{"_".join(str(x) for x in fixed)}'
 
 
-def argnames(nf):
+def argnames(nf, fixed):
     out = []
     for i in range(nf):
-        out += [f'op{i}', f'cls{i}', f'code{i}']
+        if i >= len(fixed):
+            out.append(f'op{i}')
+        out += [f'cls{i}', f'code{i}']
     return out
 
 
-def _kw(entry, nstmt, ro, nf, op0lo, op0hi, ops):
+def _kw(entry, nstmt, ro, nf, fixed, ops):
     pre = []
     for i in range(nf):
-        lo, hi = (op0lo, op0hi) if i == 0 else (0, ops + 1)
-        pre.append(f'{lo} <= op{i} < {hi} and 0 <= cls{i} <= 4 and -1 <= code{i} <= 100000')
-    return dict(ARGS=', '.join(f'{a}: int' for a in argnames(nf)), PRE=' and '.join(pre) or 'True', ENTRY=entry,
-                NSTMT=nstmt, RO=ro, NF=nf, FAULTS=', '.join(f'(op{i}, cls{i}, code{i})' for i in range(nf)))
+        p = f'0 <= cls{i} <= 4 and -1 <= code{i} <= 100000'
+        if i >= len(fixed):
+            p = f'0 <= op{i} <= {ops} and ' + p
+        pre.append(p)
+    faults = ', '.join(f'({fixed[i] if i < len(fixed) else "op%d" % i}, cls{i}, code{i})' for i in range(nf))
+    return dict(ARGS=', '.join(f'{a}: int' for a in argnames(nf, fixed)), PRE=' and '.join(pre) or 'True', ENTRY=entry,
+                NSTMT=nstmt, RO=ro, FAULTS=faults)
 
 
 def source(conds, n_ops):
-    """conds: list of (entry, nstmt, ro, nf, op0lo, op0hi); a twin is generated for each"""
+    """conds: list of (entry, nstmt, ro, nf, fixed_ops); op value n_ops means "never reached".  A twin per condition:
+    when every fixed op is reachable the twin asks for nf retried attempts followed by success, otherwise for the run
+    to succeed after the reachable prefix."""
     out = [HEAD]
     for c in conds:
-        kw = _kw(*c, n_ops(c[0], c[1]))
+        entry, nstmt, ro, nf, fixed = c
+        ops = n_ops(entry, nstmt)
+        kw = _kw(entry, nstmt, ro, nf, fixed, ops)
         out.append(COND.format(NAME=name(*c), **kw))
-        out.append(TWIN.format(NAME=name(*c, twin=True), **kw))
+        k = 0
+        while k < len(fixed) and fixed[k] < ops:
+            k += 1
+        attempts = nf + 1 if k == len(fixed) else k + 1
+        out.append(TWIN.format(NAME=name(*c, twin=True), EXPECT=f"({attempts}, 'returned')",
+                               WHAT=f'after {attempts} attempts with success', **kw))
     return '\n'.join(out)
